@@ -389,7 +389,9 @@ class Type3Tag(nfc.tag.Tag):
         if self.sys != 0x12FC:
             log.warning("not an ndef tag and can not be made compatible")
             return False
-        if version and version >> 4 != 1:
+        if version is None:
+            version = 0x10  # latest supported mapping version
+        if version >> 4 != 1:
             log.warning("Type 3 Tag NDEF mapping major version must be 1")
             return False
 
@@ -418,7 +420,6 @@ class Type3Tag(nfc.tag.Tag):
         """
         nmaxb = [0, 0x10000]
         while nmaxb[1] - nmaxb[0] > 1:
-            print(nmaxb)
             block = nmaxb[0] + (nmaxb[1] - nmaxb[0]) // 2
             try:
                 self.read_from_ndef_service(block)
